@@ -6,7 +6,31 @@ FoolscapLogger.add_event, the trimming loop (loop kind, comparison, which end is
 test of _msg, the catch-all of msg, IncidentQualifier.check_event, the stages of IncidentReporter.incident_declared
 and trailing_event, Subscription.send / start_sending / _event_received.  Every fact is emitted as a small
 enumerated value that lib/LogBuf.v *interprets*; anything that does not have the expected form raises
-Untranslatable (fail closed)."""
+Untranslatable (fail closed).
+
+Alternative source forms that are accepted (robustness round), each with its equivalence argument.  The argument
+never depends on the types of the values involved.
+
+F1  msg():  `if 'num' not in kwargs: A else: B`  ==  `if 'num' in kwargs: B else: A`
+    The language defines `x not in y` as `not (x in y)` (one __contains__ call, result negated) for every y; swapping
+    the branches under the negated test executes the same branch.
+    A = `num = self.seqnum.next(); kwargs['num'] = num`  ==  `num = kwargs['num'] = self.seqnum.next()`
+    A chained assignment evaluates the right-hand side once and assigns the targets left to right: first the local
+    `num`, then `kwargs['num']` with the same object.  `kwargs` is the dict built by the `**kwargs` calling convention
+    (a fresh exact dict), so its __setitem__ cannot observe the difference; nothing is evaluated between the two stores.
+F2  serialize_to_json_utf8():  `s = H(obj)` as first statement, H a module-level function of flogfile.py with exactly
+    one positional parameter, no decorator / default / star-args, whose body (after the docstring) is a tree of
+    try/except (no else/finally, handlers without `as`) and if/else in which EVERY path ends in `return E` as the last
+    statement of its block, contains no assignment, loop, with, nested def/lambda/comprehension, global/nonlocal/yield,
+    and does not mention `s`.  Calling H(obj) binds the parameter to the same object and runs the body; a `return E`
+    yields E's value to `s = ...` and nothing else runs in H afterwards, so replacing each `return E` by `s = E`
+    (parameter renamed to `obj`; H has no other locals, so no capture) and continuing after the call site is the same
+    computation, with the same exceptions propagating from the same points.  The result is then matched exactly as the
+    inline form.  (translate/normalize.py does not inline H because its returns sit inside try.)
+Not accepted (stay fail-closed): IncidentReporter writing to both files with `for f in (self.f1, self.f2): ...`
+    instead of two statements: the tuple reads self.f2 BEFORE the first write, the two-statement form after it (caching
+    an attribute across a call); and `if remaining < 0: stop else: write` for `if remaining >= 0: write; return` + stop,
+    which is the same test only for values on which `<` and `>=` are complementary."""
 import ast
 from translate import pylite as P
 
@@ -128,6 +152,74 @@ def classify_add_event(fn):
     return stages, facts
 
 
+def msg_numbering_ok(st):
+    """the first statement of FoolscapLogger.msg (accepted forms F1 of the module docstring)"""
+    if not (isinstance(st, ast.If) and st.orelse):
+        return False
+    t = U(st.test)
+    if t == "'num' not in kwargs":
+        auto, given = st.body, st.orelse
+    elif t == "'num' in kwargs":
+        given, auto = st.body, st.orelse
+    else:
+        return False
+    if [U(x) for x in given] != ["num = kwargs['num']"]:
+        return False
+    return [U(x) for x in auto] in (["num = self.seqnum.next()", "kwargs['num'] = num"],
+                                    ["num = kwargs['num'] = self.seqnum.next()"])
+
+
+def inline_tail_return_helper(mod, st, target, argname):
+    """`<target> = H(<argname>)` where H is a module-level helper -> H's body with `return E` turned into
+    `<target> = E` (see the module docstring, accepted form F2); any other statement is returned unchanged."""
+    if not (isinstance(st, ast.Assign) and len(st.targets) == 1 and U(st.targets[0]) == target
+            and isinstance(st.value, ast.Call) and isinstance(st.value.func, ast.Name) and not st.value.keywords
+            and len(st.value.args) == 1 and U(st.value.args[0]) == argname):
+        return st
+    defs = [n for n in mod.body if isinstance(n, ast.FunctionDef) and n.name == st.value.func.id]
+    if len(defs) != 1:
+        return st
+    h = defs[0]
+    a = h.args
+    if h.decorator_list or a.vararg or a.kwarg or a.kwonlyargs or a.defaults or a.posonlyargs or len(a.args) != 1:
+        return st
+    param = a.args[0].arg
+    body = [x for x in h.body if not (isinstance(x, ast.Expr) and isinstance(x.value, ast.Constant))]
+    for n in ast.walk(ast.Module(body=body, type_ignores=[])):
+        if isinstance(n, (ast.FunctionDef, ast.Lambda, ast.ClassDef, ast.Global, ast.Nonlocal, ast.Yield, ast.YieldFrom,
+                          ast.For, ast.While, ast.With, ast.Assign, ast.AugAssign, ast.AnnAssign, ast.NamedExpr, ast.Delete,
+                          ast.Import, ast.ImportFrom, ast.comprehension)):
+            return st
+        if isinstance(n, ast.Name) and n.id == target:
+            return st
+        if isinstance(n, ast.ExceptHandler) and n.name:
+            return st
+
+    def conv(stmts):
+        """every path through stmts ends in `return E` as its last statement -> same with `target = E`"""
+        if len(stmts) != 1:
+            raise ValueError
+        x = stmts[0]
+        if isinstance(x, ast.Return) and x.value is not None:
+            return [ast.Assign(targets=[ast.Name(id=target, ctx=ast.Store())], value=x.value, lineno=x.lineno)]
+        if isinstance(x, ast.Try) and not x.finalbody and not x.orelse:
+            return [ast.Try(body=conv(x.body), handlers=[ast.ExceptHandler(type=hd.type, name=None, body=conv(hd.body))
+                                                         for hd in x.handlers], orelse=[], finalbody=[])]
+        if isinstance(x, ast.If) and x.orelse:
+            return [ast.If(test=x.test, body=conv(x.body), orelse=conv(x.orelse))]
+        raise ValueError
+    try:
+        new = conv(body)
+    except ValueError:
+        return st
+
+    class Ren(ast.NodeTransformer):
+        def visit_Name(self, n):
+            return ast.Name(id=argname, ctx=n.ctx) if n.id == param else n
+    out = [ast.fix_missing_locations(Ren().visit(x)) for x in new]
+    return out[0]
+
+
 def generate():
     out = [P.PRELUDE % dict(src="logging/log.py, logging/levels.py, logging/incident.py, logging/publish.py")]
     out.append("Inductive lcmp := LGt | LGe | LLt | LLe | LEq | LNe.")
@@ -176,7 +268,7 @@ def generate():
         bail("msg: expected `if num..; try..; return num`, found %d statements" % len(body))
     first, tr, ret = body
     want_first = "if 'num' not in kwargs:\n    num = self.seqnum.next()\n    kwargs['num'] = num\nelse:\n    num = kwargs['num']"
-    if U(first) != want_first:
+    if not msg_numbering_ok(first):
         bail("msg: numbering changed: " + U(first))
     if U(ret) != "return num":
         bail("msg: no longer returns num")
@@ -342,6 +434,8 @@ def generate():
     dumps = "s = json.dumps(obj, cls=ExtendedEncoder)"
     if len(sjb) != 2 or U(sjb[1]) != "f.write(six.ensure_binary(s))":
         bail("serialize_to_json_utf8: the line is no longer written by one f.write after the encoding")
+    if len(sjb) == 2:
+        sjb = [inline_tail_return_helper(fm, sjb[0], "s", "obj"), sjb[1]]
     total = "false"
     if U(sjb[0]) == dumps:
         stages = 1
@@ -494,11 +588,21 @@ def generate():
     if (l, r) != ("e['d']['level']", "above"):
         bail("Filter.run --above compares %s with %s" % (l, r))
     out.append("Definition filter_above_drop_cmp : lcmp := %s.   (* level %s above -> dropped *)" % (op, op))
-    sf = [n for n in ast.walk(frun) if isinstance(n, ast.If) and "strip_facility is not None" in U(n.test)
-          and "startswith" in U(n.test)]
-    if len(sf) != 1 or U(sf[0].test) != "strip_facility is not None and e['d'].get('facility', '').startswith(strip_facility)" \
-            or [U(b) for b in sf[0].body] != ["continue"]:
+    # --strip-facility PREFIX (27683fd): an event is dropped iff its facility is text and starts with the prefix
+    #     if strip_facility is not None:
+    #         facility = e['d'].get('facility', '')
+    #         if isinstance(facility, str) and facility.startswith(strip_facility): continue
+    # (the earlier form `e['d'].get('facility', '').startswith(..)` raised on facility=None / non-text: rejected)
+    sf = [n for n in ast.walk(frun) if isinstance(n, ast.If) and U(n.test) == "strip_facility is not None"
+          and not any(isinstance(x, ast.Expr) and "print" in U(x) for x in n.body)]
+    if len(sf) != 1 or sf[0].orelse or len(sf[0].body) != 2:
         bail("Filter.run: --strip-facility test changed")
+    s1, s2 = sf[0].body
+    if U(s1) != "facility = e['d'].get('facility', '')" or not isinstance(s2, ast.If) or s2.orelse \
+            or U(s2.test) != "isinstance(facility, str) and facility.startswith(strip_facility)" \
+            or [U(b) for b in s2.body] != ["continue"]:
+        bail("Filter.run: --strip-facility no longer drops exactly the events whose facility is text with that prefix")
+    out.append("Definition filter_strip_text_only : bool := true.   (* non-text facilities (None, numbers, ..) are kept *)")
     ge = P.find_def(fm, "get_events")
     if "if fn.endswith('.bz2'):" not in U(ge) or "f = bz2.BZ2File(fn, 'r')" not in U(ge) or "f = open(fn, 'rb')" not in U(ge):
         bail("get_events no longer chooses the decompressor from the file name")
